@@ -94,9 +94,12 @@ pub struct BSheet {
     pub cell_flags: u8,
     /// BrtWsDim names only the first used row and two columns (advisory, out of date) instead of the used range
     pub stale_dim: bool,
+    /// bulk inside the skipped begin..end blocks before the sheet data, so that their records cross the reader's 8 KiB buffer
+    /// refills: 0 none, 1 a selection of 600 areas, 2 a selection of 1000 areas, 3 a column-info block of 410 entries
+    pub preamble_bulk: u8,
 }
 impl BSheet {
-    pub fn new(name: &str, items: Vec<BItem>) -> BSheet { BSheet { name: name.into(), state: 0, dir: "worksheets", items, preamble: true, cell_flags: 0, stale_dim: false } }
+    pub fn new(name: &str, items: Vec<BItem>) -> BSheet { BSheet { name: name.into(), state: 0, dir: "worksheets", items, preamble: true, cell_flags: 0, stale_dim: false, preamble_bulk: 0 } }
 }
 
 #[derive(Clone, Debug, Default)]
@@ -137,9 +140,21 @@ pub fn sheet_bin(s: &BSheet) -> Vec<u8> {
     if s.preamble {
         o.extend(rec(0x85, &[])); // BrtBeginWsViews
         o.extend(rec(0x89, &[0u8; 30])); // BrtBeginWsView
+        if s.preamble_bulk == 1 || s.preamble_bulk == 2 {
+            // BrtSel: pnn, rwAct, colAct, dwRfxAct, then crfx areas of 16 bytes
+            let n: u32 = if s.preamble_bulk == 1 { 600 } else { 1000 };
+            let mut d = vec![]; d.extend(3u32.to_le_bytes()); d.extend(0u32.to_le_bytes()); d.extend(0u32.to_le_bytes()); d.extend(0u32.to_le_bytes()); d.extend(n.to_le_bytes());
+            for k in 0..n { d.extend((2 * k).to_le_bytes()); d.extend((2 * k).to_le_bytes()); d.extend(1u32.to_le_bytes()); d.extend(2u32.to_le_bytes()); }
+            o.extend(rec(0x98, &d));
+        }
         o.extend(rec(0x8A, &[])); // BrtEndWsView
         o.extend(rec(0x86, &[])); // BrtEndWsViews
         o.extend(rec(0x1E5, &[0xFF, 0xFF, 0xFF, 0xFF, 0x08, 0x00, 0x2C, 0x01, 0x00, 0x00, 0x00, 0x00])); // BrtWsFmtInfo
+        if s.preamble_bulk == 3 {
+            o.extend(rec(0x186, &[])); // BrtBeginColInfos
+            for k in 0..410u32 { let mut d = vec![]; d.extend(k.to_le_bytes()); d.extend(k.to_le_bytes()); d.extend(2304u32.to_le_bytes()); d.extend(0u32.to_le_bytes()); d.extend(2u16.to_le_bytes()); o.extend(rec(0x3C, &d)); }
+            o.extend(rec(0x187, &[])); // BrtEndColInfos
+        }
     }
     o.extend(rec(0x91, &[]));
     let mut cur: Option<u32> = None;
